@@ -55,6 +55,8 @@ def _cloud(draw, family, cls):
     n = draw(st.integers(1, 8))
     spec = {"cls": cls, "pts": draw(st.lists(S.pt3, min_size=n, max_size=n)),
             "scale": 1.0 if family == "A" else draw(st.sampled_from([1.0, 1.0, 0.1, 1000.0, 1 / 3.0]))}
+    # the object is created somewhere else, its extent is looked at once, then the vertices are assigned where they belong
+    spec["moved"] = draw(st.sampled_from([None, None, None, [100.0, 0.0, 0.0], [-7.5, 12.0, 3.0]]))
     if cls == "Points":
         spec["data"] = draw(S.data_sets(["VERTEX"]))
     else:
@@ -500,6 +502,8 @@ class C13(Check):
                         res.label("grid2d:negative-size")
                     if spec.get("regeom"):
                         res.label("grid2d:geometry-assigned-after-first-use")
+                if spec.get("moved"):
+                    res.label("vertices-assigned-after-first-use")
                 if m.cells is not None and len({v for cell in m.cells for v in cell}) < len(m.coords):
                     res.label("cells:unreferenced-vertices")
                 for _n, kind, _a, _e in m.data:
